@@ -915,6 +915,9 @@ func (self *LockResultCommandData) GetArrayValue() [][]byte {
 			index += 4
 			continue
 		}
+		if valueLen < 0 || index+4+valueLen > len(self.Data) {
+			break
+		}
 		values = append(values, self.Data[index+4:index+4+valueLen])
 		index += valueLen + 4
 	}
@@ -933,6 +936,9 @@ func (self *LockResultCommandData) GetKVValue() map[string][]byte {
 			index += 4
 			continue
 		}
+		if keyLen < 0 || index+4+keyLen+4 > len(self.Data) {
+			break
+		}
 		key := string(self.Data[index+4 : index+4+keyLen])
 		index += keyLen + 4
 
@@ -940,6 +946,9 @@ func (self *LockResultCommandData) GetKVValue() map[string][]byte {
 		if valueLen == 0 {
 			index += 4
 			continue
+		}
+		if valueLen < 0 || index+4+valueLen > len(self.Data) {
+			break
 		}
 		values[key] = self.Data[index+4 : index+4+valueLen]
 		index += valueLen + 4
